@@ -23,8 +23,8 @@ MALFORMED = [
 
 def plan(tier: str) -> dict:
     return {
-        "runs": 8000 if tier == "quick" else 400000,
-        "budget": 70 if tier == "quick" else 900,
+        "runs": 20000 if tier == "quick" else 400000,
+        "budget": 150 if tier == "quick" else 900,
         "cases": [],
         "chunk": 40,
         "rule": "HTTP/1.0/1.1 connections carrying 1..5 requests, pipelined in one burst or sequential, with bodies "
